@@ -960,7 +960,11 @@ class OmniParser(PVLParser):
                 last_token = Token(
                     last_v, grammar=self.grammar, decoder=self.decoder
                 )
-                if last_token.is_parameter_name():
+                # Only a value that was read as a string can have been
+                # meant as a parameter name: a number, a date, NULL or
+                # TRUE would be turned into a name that is not in the
+                # text ("inf", "None", "12:00:00+00:00").
+                if isinstance(last_v, str) and last_token.is_parameter_name():
                     # Fix the previous entry
                     module.pop()
                     module.append(last_k, self._empty_value(t.pos))
